@@ -97,7 +97,7 @@ func (o sOp) String() string {
 	switch o.Op {
 	case "AddBalance", "SubBalance":
 		return fmt.Sprintf("%s(a%d,%d)", o.Op, o.A, o.X)
-	case "SetNonce", "SetCode", "Suicide", "CreateAccount":
+	case "SetNonce", "SetCode", "Suicide", "CreateAccount", "Read":
 		return fmt.Sprintf("%s(a%d)", o.Op, o.A)
 	case "SetState":
 		return fmt.Sprintf("SetState(a%d,s%d,%d)", o.A, o.X, slotVals[o.V][31])
@@ -564,15 +564,25 @@ func (m *sModel) obs() *sObs {
 	return o
 }
 
-// refRoot: the state root the content must have, computed from the model's
-// content with the reference trie directly (no StateDB involved).
-func (m *sModel) refRoot() [32]byte {
+// refContent: what the state trie must hold for the model's content, computed
+// with the reference trie and RLP directly (no StateDB involved): the state
+// root, per live account its RLP encoding and storage root, per non-zero slot
+// the RLP encoding stored in the storage trie.
+type refContent struct {
+	root  [32]byte
+	acct  [nAddr][]byte // nil = absent
+	sroot [nAddr][32]byte
+	slot  [nAddr][nSlot][]byte // nil = absent
+}
+
+func (m *sModel) refContent() *refContent {
 	type account struct {
 		Nonce    uint64
 		Balance  *big.Int
 		Root     ucommon.Hash
 		CodeHash []byte
 	}
+	rc := &refContent{}
 	acc, err := utrie.NewSecure(ucommon.Hash{}, utrie.NewDatabase(uethdb.NewMemDatabase()), 0)
 	if err != nil {
 		core.Fatal("reference trie: %v", err)
@@ -588,26 +598,41 @@ func (m *sModel) refRoot() [32]byte {
 				v := slotVals[ac.Stor[s]]
 				enc, _ := urlp.EncodeToBytes(bytes.TrimLeft(v[:], "\x00"))
 				st.Update(sdbSlots[s][:], enc)
+				rc.slot[a][s] = enc
 			}
 		}
 		ch := emptyCodeHash
 		if ac.Code {
 			ch = theCodeHash
 		}
+		rc.sroot[a] = st.Hash()
 		enc, err := urlp.EncodeToBytes(&account{ac.Nonce, big.NewInt(ac.Bal), st.Hash(), ch[:]})
 		if err != nil {
 			core.Fatal("reference account encoding: %v", err)
 		}
 		acc.Update(sdbAddrs[a][:], enc)
+		rc.acct[a] = enc
 	}
-	return acc.Hash()
+	rc.root = acc.Hash()
+	return rc
 }
+
+// refRoot: the state root the content must have.
+func (m *sModel) refRoot() [32]byte { return m.refContent().root }
 
 // ------------------------------------------------------------------ instances
 
 type sdbInst struct {
 	apply func(o sOp, snapIDs *[]int) (root [32]byte, hasRoot bool, err error)
 	obs   func() *sObs
+	// proofs as handed out by StateDB.GetProof(address) / GetStorageProof(address, slot)
+	proof  func(a int) ([][]byte, error)
+	sproof func(a, s int) ([][]byte, error)
+	// several StateDBs over ONE state.Database (multi.go): sel makes handle h the
+	// one apply/obs/proof work on; the ops Open (state.New at the root of the last
+	// Commit, same Database: one more handle) and Commit (the handle keeps being
+	// used) are understood by apply.
+	sel func(h int)
 }
 
 func newInSDB() *sdbInst {
@@ -618,7 +643,17 @@ func newInSDB() *sdbInst {
 		core.Fatal("in-tree state.New on an empty database: %v", err)
 	}
 	addr := func(i int) icommon.Address { return icommon.Address(sdbAddrs[i]) }
+	hs, cur := []*istate.StateDB{s}, 0
+	var lastRoot icommon.Hash // root of the last Commit (zero: nothing committed, the empty state)
 	return &sdbInst{
+		sel: func(h int) {
+			hs[cur] = s
+			cur, s = h, hs[h]
+		},
+		proof: func(a int) ([][]byte, error) { return s.GetProof(addr(a)) },
+		sproof: func(a, i int) ([][]byte, error) {
+			return s.GetStorageProof(addr(a), icommon.Hash(sdbSlots[i]))
+		},
 		apply: func(o sOp, ids *[]int) (root [32]byte, hasRoot bool, err error) {
 			switch o.Op {
 			case "AddBalance":
@@ -647,12 +682,36 @@ func newInSDB() *sdbInst {
 			case "IntermediateRoot":
 				*ids = nil
 				return s.IntermediateRoot(true), true, nil
+			case "Read":
+				ad := addr(o.A)
+				s.Exist(ad)
+				s.GetBalance(ad)
+				s.GetNonce(ad)
+				s.GetState(ad, icommon.Hash(sdbSlots[0]))
+			case "Open":
+				ns, err := istate.New(lastRoot, db)
+				if err != nil {
+					return lastRoot, false, fmt.Errorf("state.New at the last committed root: %v", err)
+				}
+				hs = append(hs, ns)
+			case "Commit":
+				// the way a block is processed: the last transaction is finalised,
+				// then the block is committed; the StateDB keeps being used
+				*ids = nil
+				s.IntermediateRoot(true)
+				r, err := s.Commit(true)
+				if err != nil {
+					return r, true, fmt.Errorf("Commit: %v", err)
+				}
+				lastRoot = r
+				return r, true, nil
 			case "CommitReopen":
 				*ids = nil
 				r, err := s.Commit(true)
 				if err != nil {
 					return r, true, fmt.Errorf("Commit: %v", err)
 				}
+				lastRoot = r
 				if o.X == 2 {
 					if err := db.TrieDB().Commit(r, false); err != nil {
 						return r, true, fmt.Errorf("TrieDB().Commit: %v", err)
@@ -699,7 +758,17 @@ func newUpSDB() *sdbInst {
 		core.Fatal("reference state.New on an empty database: %v", err)
 	}
 	addr := func(i int) ucommon.Address { return ucommon.Address(sdbAddrs[i]) }
+	hs, cur := []*ustate.StateDB{s}, 0
+	var lastRoot ucommon.Hash // root of the last Commit (zero: nothing committed, the empty state)
 	return &sdbInst{
+		sel: func(h int) {
+			hs[cur] = s
+			cur, s = h, hs[h]
+		},
+		proof: func(a int) ([][]byte, error) { return s.GetProof(addr(a)) },
+		sproof: func(a, i int) ([][]byte, error) {
+			return s.GetStorageProof(addr(a), ucommon.Hash(sdbSlots[i]))
+		},
 		apply: func(o sOp, ids *[]int) (root [32]byte, hasRoot bool, err error) {
 			switch o.Op {
 			case "AddBalance":
@@ -728,12 +797,34 @@ func newUpSDB() *sdbInst {
 			case "IntermediateRoot":
 				*ids = nil
 				return s.IntermediateRoot(true), true, nil
+			case "Read":
+				ad := addr(o.A)
+				s.Exist(ad)
+				s.GetBalance(ad)
+				s.GetNonce(ad)
+				s.GetState(ad, ucommon.Hash(sdbSlots[0]))
+			case "Open":
+				ns, err := ustate.New(lastRoot, db)
+				if err != nil {
+					return lastRoot, false, err
+				}
+				hs = append(hs, ns)
+			case "Commit":
+				*ids = nil
+				s.IntermediateRoot(true)
+				r, err := s.Commit(true)
+				if err != nil {
+					return r, true, err
+				}
+				lastRoot = r
+				return r, true, nil
 			case "CommitReopen":
 				*ids = nil
 				r, err := s.Commit(true)
 				if err != nil {
 					return r, true, err
 				}
+				lastRoot = r
 				if o.X == 2 {
 					if err := db.TrieDB().Commit(r, false); err != nil {
 						return r, true, err
@@ -782,6 +873,8 @@ type sdbRes struct {
 	class   string
 	input   string
 	viols   []viol
+	// proofs (GetProof / GetStorageProof) judged after a root-bearing last op; deepProofs = those of >= 2 nodes
+	proofs, deepProofs int
 }
 
 func (r *sdbRes) digest() string { return core.Hash(r.key, r.root, r.class, len(r.viols)) }
@@ -866,6 +959,8 @@ func runSDB(ops []sOp) (res sdbRes) {
 				}
 				if r1 != rr {
 					bad("root-not-function-of-content", "", "%s root %x, root of the same account/storage content built directly with the reference trie %x (reference StateDB: %x)", o.Op, r1[:6], rr[:6], r2[:6])
+				} else {
+					res.proofs, res.deepProofs = checkSDBProofs(in, up, m, r1, r2 == rr, bad)
 				}
 			}
 		}
